@@ -1,15 +1,14 @@
 /-
   C16 model driver (line protocol, core Lean only).
     tv <isNil> <selfNil> <runtime|-> <r>      → null | typeError | same          (toValueObj)
-    memo <unsync|once|atomic|plainonce|current> <sv> <t:op,t:op,…>   (op ∈ f p w)
+    memo <unsync|once|atomic|plainonce> <sv> <t:op,t:op,…>   (op ∈ f p w)
                                                → raced=<0|1> bad=<0|1> u=<n> flag=<0|1> nU=<n> nF=<n>
     scan <hex bytes>                           → nil | u16 <hex units>            (scanBytes)
-    proto                                      → cfg=<unsync|once|atomic|plainonce|unknown> raw=<fn,fn,…>
-    table                                      → rows=<n> writes=<n> shared=<n> execMethods=<n>
+  The driver imports only the hand-written model (no Generated file, no Props/Tie): it builds and runs whatever the
+  regenerated facts look like.
 -/
 import GojaModel.Base.Proto
 import GojaModel.C16.Model
-import GojaModel.Generated.C16_Share
 namespace GojaModel.C16.Driver
 open GojaModel.C16 GojaModel.Proto
 
@@ -20,7 +19,6 @@ def cfgByName (n : String) : Option Cfg :=
   else if n == "once" then some onceCfg
   else if n == "atomic" then some ⟨.atomic, false⟩
   else if n == "plainonce" then some ⟨.plain, true⟩
-  else if n == "current" then cfgOfProg Generated.memoProg
   else none
 
 def cfgName (c : Option Cfg) : String :=
@@ -75,12 +73,6 @@ def handle (line : String) : String :=
       | none => "nil"
       | some u => "u16 " ++ String.join (u.map (toHexW 4))
   | ["scan"] => "nil"
-  | ["proto"] =>
-    let raw := (Generated.impAcc.filter fun a => a.field == "u" && !a.write && a.sync == "plain" && a.dom == "raw").map (·.fn)
-    s!"cfg={cfgName (cfgOfProg Generated.memoProg)} raw={",".intercalate raw}"
-  | ["table"] =>
-    let w := Generated.execAcc.filter (·.kind == "write")
-    s!"rows={Generated.execAcc.length} writes={w.length} shared={(w.filter (!·.isLocal)).length} execMethods={Generated.execMethods.length}"
   | _ => "error"
 
 def main : IO Unit := lineMap handle
